@@ -635,17 +635,25 @@ impl Stream for Substream {
 
                                         match read_payload_size(&this.size_vec[..this.offset]) {
                                             Err(ReadError::NotEnoughBytes) => continue,
-                                            Err(_) =>
+                                            Err(_) => {
+                                                // Start over with the length prefix, the size
+                                                // buffer must not be indexed past its end if
+                                                // the stream is polled again.
+                                                this.offset = 0;
+
                                                 return Poll::Ready(Some(Err(
                                                     SubstreamError::ReadFailure(Some(
                                                         this.substream_id,
                                                     )),
-                                                ))),
+                                                )));
+                                            }
                                             Ok((size, num_bytes)) => {
                                                 debug_assert_eq!(num_bytes, this.offset);
 
                                                 if let Some(max_size) = max_size {
                                                     if size > max_size {
+                                                        this.offset = 0;
+
                                                         return Poll::Ready(Some(Err(
                                                             SubstreamError::ReadFailure(Some(
                                                                 this.substream_id,
